@@ -37,7 +37,7 @@ class TY:
 
     def __ne__(self, other):
         r = self.__eq__(other)
-        return (not r) if type(r) is bool else (r == False)  # noqa: E712
+        return r == False  # noqa: E712
 
     def __bool__(self):
         return bool(self.code != 0)
